@@ -21,7 +21,7 @@ CLAIMED = {
             'Structural necessary conditions of "no input can crash or exhaust the loader": no escape to std::terminate on load paths, no '
             'input-driven recursion, no unclamped header-declared pre-sizing, every read of the MsgPack input buffer covered by a bounds guard '
             'on every abstract path for all 256 first bytes (both readers and helpers), array end guards agree with IsEnd(); CSV unescape reads stay inside the cell in every loop iteration (inductive facts by Houdini); '
-            'the stream window analysis incl. disjoint memcpy regions; the encoded text stream reader keeps its window inside the buffer and makes progress at end of file (a truncated last code unit cannot spin a caller). Hangs and arithmetic UB in general are not decided.',
+            'the stream window analysis incl. disjoint memcpy regions; the encoded text stream reader keeps its window inside the buffer and makes progress at end of file (a truncated last code unit cannot spin a caller); no scalar local of the library is read before it is definitely written (definite-assignment analysis over CFG paths; a target of a failure-reporting loader counts as written only where the result was tested). Hangs and arithmetic UB in general are not decided.',
             'may-throw closure + call-graph SCCs + taint-to-sink flow + guard domination by abstract interpretation over the first-byte domain', '§5 C02'),
     'C03': ('other',
             'Structural necessary conditions of order-independent field loading: failure results of positioning/refill calls are consumed, '
